@@ -9,13 +9,16 @@ Full == {97, 32, 50, 56, 57} \cup Breaks          \* 'a', space, '2', '8', '9' a
 Small == {97, 32, 50, 56, 10, 13, 8232}
 (* neighbours of the line-break characters that are NOT line breaks (tab, NUL, U+0084, U+0086, U+2027, U+202A, no-break *)
 (* space, U+001F), mixed with two real ones                                                                        *)
-Near == {97, 9, 0, 132, 134, 8231, 8234, 160, 31, 10, 8232}
+Near == {97, 9, 0, 132, 134, 8231, 8234, 160, 31, 10, 8232, 28, 29, 30}       \* 28-30: separators str.splitlines breaks at, the statement's eight forms do not
 Bytes == {97, 195, 169, 10, 13}                    \* 'a', the two bytes of U+00E9, \n, \r
 (* contents are built from units so that the UTF-8 pair stays together *)
 Units == {<<97>>, <<195, 169>>, <<10>>, <<13, 10>>, <<13>>, <<239, 187, 191>>, <<240, 159, 152, 128>>}   \* incl. U+FEFF (3 bytes) and a 4-byte character
 RECURSIVE Cat(_)
 Cat(ss) == IF ss = <<>> THEN <<>> ELSE Head(ss) \o Cat(Tail(ss))
-Contents == {Cat(u) : u \in SeqsOver(Units, ContentLen)}
+(* blanks and the other characters str.splitlines / str.strip care about (tab, form feed, U+0085, U+2028): they are *)
+(* content here - only \n and \r\n separate lines, nothing is trimmed                                              *)
+Units2 == {<<97>>, <<10>>, <<13, 10>>, <<32>>, <<9>>, <<12>>, <<194, 133>>, <<226, 128, 168>>, <<11>>}
+Contents == {Cat(u) : u \in SeqsOver(Units, ContentLen)} \cup {Cat(u) : u \in SeqsOver(Units2, 3)}
 Init == \/ /\ kind = "splitlines" /\ t \in SeqsOver(Full, TextLen) \cup SeqsOver(Small, SmallLen) \cup SeqsOver(Near, 3) /\ bs = 0
         \/ /\ kind = "revlines" /\ t \in Contents /\ bs \in 1..MaxBlock
 Next == UNCHANGED vars
